@@ -11,9 +11,9 @@ _, cfgs = chk.export_configs("Regress", "RegressMC_quick.cfg", keep=lambda c: c.
 def pick(name, pred):
     c = next(c for c in cfgs if pred(c))
     return c19.execute({"id": "good-" + name, "cfg": c, "seed": 7})
-cp = pick("cp", lambda c: c["kind"] == "reg" and c["model"] == "cp" and c["xs"] == [3, 2] and c["ys"] == [2] and c["rank"] == 2 and c["reg"] == 10)
-tk = pick("tucker", lambda c: c["kind"] == "reg" and c["model"] == "tucker" and c["xs"] == [2, 2, 2] and c["rank"] == 3 and c["reg"] == 10)
-pl = pick("pls", lambda c: c["kind"] == "pls" and c["xs"] == [3, 2] and c["ny"] == 2 and c["nc"] == 2)
+cp = pick("cp", lambda c: c["kind"] == "reg" and c["model"] == "cp" and c["xs"] == [3, 2] and c["ys"] == [2] and c["rank"] == 1 and c["opt"] == "tight" and c["reg"] == 100)
+tk = pick("tucker", lambda c: c["kind"] == "reg" and c["model"] == "tucker" and c["xs"] == [2, 2, 2] and c["rank"] == 1 and c["opt"] == "loose" and c["reg"] == 100)
+pl = pick("pls", lambda c: c["kind"] == "pls" and c["xs"] == [3, 2] and c["ny"] == 2 and c["nc"] == 2 and c["opt"] == "tol2")
 good = [cp, tk, pl]
 evs, want = list(good), {}
 def mut(base, name, clause, f):
@@ -36,16 +36,30 @@ mut(cp, "cp-pred-layout", "Predict", swap(["pred"], 8, 10))           # as if th
 mut(cp, "cp-weight", "Predict", bump(["weight"], 3, 9))
 mut(cp, "cp-dense", "WeightIsDense", bump(["dense"], 3, 3))
 mut(cp, "cp-vec", "VecW", swap(["vec"], 0, 1))
-mut(cp, "cp-factor", "DenseDefinition", bump(["factors", "fs", 0], 0, 200000))
+def flipmax(path):
+    def f(e):
+        t = e
+        for p in path: t = t[p]
+        k = max(range(len(t["data"])), key=lambda n: abs(t["data"][n]))
+        t["data"][k] = -t["data"][k]
+    return f
+mut(cp, "cp-factor", "DenseDefinition", flipmax(["factors", "fs", 0]))
 mut(cp, "cp-nan", "Finite", lambda e: e["pred"]["data"].__setitem__(0, 2000000001))
-mut(cp, "cp-raised", "FitRaised", lambda e: e["fit"].__setitem__("raised", True))
-mut(tk, "tucker-core", "DenseDefinition", bump(["factors", "core"], 0, 300000))
+mut(cp, "cp-form-int64", "PredictDataForm", lambda e: e["forms"][1]["pred"]["data"].__setitem__(0, e["forms"][1]["pred"]["data"][0] + 40))
+mut(cp, "cp-form-raised", "PredictRaised", lambda e: e["forms"][3].__setitem__("raised", True))
+mut(cp, "cp-form-missing", "DataForms", lambda e: e["forms"].pop())
+mut(cp, "cp-iterations", "IterationBudget", lambda e: e["fit"].__setitem__("n_iter", 41))
+mut(tk, "tucker-core", "DenseDefinition", flipmax(["factors", "core"]))
 mut(tk, "tucker-pred", "Predict", bump(["pred"], 5, 5))
 mut(pl, "pls-transform", "TransformIsScores", bump(["base", "transform"], 1, 5))
 mut(pl, "pls-unit", "UnitLoadings", lambda e: e["permfit"]["loads"][0].__setitem__("data", [2 * x for x in e["permfit"]["loads"][0]["data"]]))
 mut(pl, "pls-shiftx", "ShiftXPredict", bump(["shiftx", "pred"], 0, 5))
 mut(pl, "pls-shifty", "ShiftYPredict", bump(["shifty", "pred"], 0, 1000000))
 mut(pl, "pls-yload", "ShiftYLoadings", lambda e: e["shifty"]["yload"]["data"].__setitem__(0, -e["shifty"]["yload"]["data"][0]))
+mut(pl, "pls-yscores", "TransformYIsYScores", bump(["extra", "yt"], 0, 4000))
+mut(pl, "pls-fit-transform", "FitTransform", bump(["extra", "fty"], 0, 5))
+mut(pl, "pls-form-transform", "TransformDataForm", lambda e: e["extra"]["forms"][0]["transform"]["data"].__setitem__(0, e["extra"]["forms"][0]["transform"]["data"][0] + 5))
+mut(pl, "pls-form-predict", "PredictDataForm", lambda e: e["extra"]["forms"][1]["pred"]["data"].__setitem__(0, e["extra"]["forms"][1]["pred"]["data"][0] + 5))
 def permswap(e): e["perm"][0], e["perm"][1] = e["perm"][1], e["perm"][0]
 mut(pl, "pls-perm", "PermScores", permswap)
 mut(pl, "pls-nan", "Finite", lambda e: e["base"]["scores"]["data"].__setitem__(0, 2000000001))
